@@ -448,6 +448,27 @@ func init() {
 			Val{T: errType(), L: []string{ite(okc, "0", e.L[0]), ite(okc, "0", e.L[1])}})
 	}
 
+	// ---- net.Conn ----
+	s["net.Conn.Read"] = func(ex *Exec, fr *Frame, st *State, c *callCtx) Val {
+		b := c.args[0]
+		ex.havocSlice(st, b)
+		n := ex.fresh("nread", bv64)
+		ex.assume(st.pc, and(nonNeg(n), app("bvsle", n, b.L[2])))
+		e := ex.maybeErr(st, "read")
+		return tup(intVal(n), e)
+	}
+	s["net.Conn.Write"] = func(ex *Exec, fr *Frame, st *State, c *callCtx) Val {
+		b := c.args[0]
+		n := ex.fresh("nwritten", bv64)
+		e := ex.maybeErr(st, "write")
+		// io.Writer: n < len(p) implies a non-nil error
+		ex.assume(st.pc, and(nonNeg(n), app("bvsle", n, b.L[2]), implies(eq(e.L[0], "0"), eq(n, b.L[2]))))
+		return tup(intVal(n), e)
+	}
+	for _, n := range []string{"net.Conn.Close", "net.Conn.SetDeadline", "net.Conn.SetReadDeadline", "net.Conn.SetWriteDeadline"} {
+		s[n] = func(ex *Exec, fr *Frame, st *State, c *callCtx) Val { return ex.maybeErr(st, "conn") }
+	}
+
 	// ---- codecs: deterministic, do not panic, do not write their input (trusted) ----
 	unmarshal := func(ex *Exec, fr *Frame, st *State, c *callCtx) Val {
 		// the target (second argument, a pointer boxed in an interface) is overwritten with unconstrained content
